@@ -21,7 +21,7 @@ RULE = ('cases = {ITML, ITML_Supervised} x prior {identity, covariance, '
         'distinct_nontrivial counts distinct (estimator, configuration, pair '
         'set) with at least one non-zero dual variable or the '
         'satisfied-prior case.')
-ASSUMPTIONS = ['stationarity residual tolerance max(1e-6, 100*K*eps*cond(M)) '
+ASSUMPTIONS = ['stationarity residual tolerance max(1e-6, 1000*K*eps*cond(M)) '
                'with K rank-one updates; cases whose bound exceeds 1e-2 are '
                'inconclusive', 'gamma=inf is passed as the numpy.inf object']
 TIMEOUT = {'quick': 1200, 'thorough': 4 * 3600}
@@ -75,6 +75,8 @@ def cases(tier, seed):
     if name == 'ITML_Supervised':
       p['n_constraints'] = int(r.choice([10, 25, 40]))
     out.append({'est': name, 'params': p, 'mode': mode,
+                # the program is scale covariant: coordinates x s, bounds x s^2
+                'scale': [1.0, 1.0, 1e5, 1e-4, 1e3][i % 5],
                 'ds': {'seed': int(r.randint(2**31 - 1)),
                        'd': int(r.randint(2, 5 if q else 7)),
                        'classes': int(r.randint(2, 4)), 'variant': 'plain',
@@ -97,12 +99,15 @@ def required(tier):
 def run_case(spec, j):
   name = spec['est']
   ds = common.dataset(spec['ds'])
+  if spec.get('scale', 1.0) != 1.0:
+    ds = dict(ds, X=np.asarray(ds['X'], dtype=float) * spec['scale'])
   X = np.asarray(ds['X'], dtype=float)
   d = ds['d']
   f = common.build(spec, ds, use_fast=False)
   p = f.meta['params']
   seed = p['random_state']
-  det = {'est': name, 'params': spec['params'], 'mode': spec['mode'], 'd': d}
+  det = {'est': name, 'params': spec['params'], 'mode': spec['mode'], 'd': d,
+         'scale': spec.get('scale', 1.0)}
   rng = rng_for('c11run', spec['ds']['seed'])
   # the pairs the solver will see, for choosing explicit bounds
   if name == 'ITML':
@@ -196,7 +201,7 @@ def run_case(spec, j):
   scale = max(np.abs(Minv).max(), np.abs(M0inv).max(), np.abs(S).max())
   cond = lamM.max() / lamM.min()
   K = n_iter * len(lab)
-  bound = max(1e-6, 100 * K * EPS * cond)
+  bound = max(1e-6, 1000 * K * EPS * cond)
   if bound > 1e-2:
     j.skip('C11.stationarity-M', 'ill-conditioned')
   else:
